@@ -21,9 +21,11 @@ Proof.
   induction t as [c|a IHa|ts IHts|a IHa|k x IHk IHx|fr a IHa|ts IHts|a IHa] using ty_ind';
     intros v; cbn [conformsb conforms].
   - reflexivity.
-  - destruct v; try (split; [discriminate|intros [l0 [E _]]; discriminate]).
-    rewrite (all_iff _ _ l IHa). split; [eauto|intros [l0 [E H]]; now inversion E; subst].
-  - destruct v; try (split; [discriminate|intros [l0 [E _]]; discriminate]).
+  - rewrite andb_true_iff. apply and_iff_compat_l.
+    destruct v as [| | | | | | | |g l| | |]; try (split; [discriminate|intros [g0 [l0 [E _]]]; discriminate]).
+    rewrite (all_iff _ _ l IHa). split; [eauto|intros [g0 [l0 [E H]]]; now inversion E; subst].
+  - rewrite andb_true_iff. apply and_iff_compat_l.
+    destruct v as [| | | | | | | | |g l| |]; try (split; [discriminate|intros [g0 [l0 [E _]]]; discriminate]).
     assert (forall l,
       (fix go (ts : list ty) (l : list val) : bool :=
          match ts, l with [], [] => true | a :: r, x :: xs => conformsb T a x && go r xs | _, _ => false end) ts l = true
@@ -31,21 +33,25 @@ Proof.
          match ts, l with [], [] => True | a :: r, x :: xs => conforms T a x /\ go r xs | _, _ => False end) ts l) as Hgo.
     { induction IHts as [|a ts Ha Hts IH]; intros [|y l']; try (split; [discriminate|contradiction]);
         [split; auto|]. rewrite andb_true_iff, Ha, IH. reflexivity. }
-    rewrite Hgo. split; [eauto|intros [l0 [E H]]; now inversion E; subst].
-  - destruct v; try (split; [discriminate|intros [l0 [E _]]; discriminate]).
-    rewrite (all_iff _ _ l IHa). split; [eauto|intros [l0 [E H]]; now inversion E; subst].
-  - destruct v; try (split; [discriminate|intros [l0 [E _]]; discriminate]).
+    rewrite Hgo. split; [eauto|intros [g0 [l0 [E H]]]; now inversion E; subst].
+  - rewrite andb_true_iff. apply and_iff_compat_l.
+    destruct v as [| | | | | | | | |g l| |]; try (split; [discriminate|intros [g0 [l0 [E _]]]; discriminate]).
+    rewrite (all_iff _ _ l IHa). split; [eauto|intros [g0 [l0 [E H]]]; now inversion E; subst].
+  - rewrite andb_true_iff. apply and_iff_compat_l.
+    destruct v as [| | | | | | | | | | |g kv]; try (split; [discriminate|intros [g0 [l0 [E _]]]; discriminate]).
     rewrite (all_iff (fun p => conformsb T k (fst p) && conformsb T x (snd p))
                      (fun p => conforms T k (fst p) /\ conforms T x (snd p)) kv).
-    + split; [eauto|intros [l0 [E H]]; now inversion E; subst].
+    + split; [eauto|intros [g0 [l0 [E H]]]; now inversion E; subst].
     + intros p. now rewrite andb_true_iff, IHk, IHx.
-  - destruct v; try (split; [discriminate|intros [l0 [E _]]; discriminate]).
+  - rewrite andb_true_iff. apply and_iff_compat_l.
+    destruct v as [| | | | | | | | | |g fr' l|]; try (split; [discriminate|intros [g0 [l0 [E _]]]; discriminate]).
     rewrite andb_true_iff, (all_iff _ _ l IHa). split.
     + intros [E H]. apply eqb_prop in E. subst. eauto.
-    + intros [l0 [E H]]. inversion E; subst. split; [apply eqb_reflx|assumption].
+    + intros [g0 [l0 [E H]]]. inversion E; subst. split; [apply eqb_reflx|assumption].
   - induction IHts as [|a ts Ha Hts IH]; cbn; [split; [discriminate|contradiction]|].
     rewrite orb_true_iff, Ha, IH. reflexivity.
-  - destruct v; try (split; [discriminate|intros [l0 [E _]]; discriminate]).
-    rewrite (all_iff _ _ l IHa). split; [eauto|intros [l0 [E H]]; now inversion E; subst].
+  - rewrite andb_true_iff. apply and_iff_compat_l.
+    destruct v as [| | | | | | | |g l| | |]; try (split; [discriminate|intros [g0 [l0 [E _]]]; discriminate]).
+    rewrite (all_iff _ _ l IHa). split; [eauto|intros [g0 [l0 [E H]]]; now inversion E; subst].
 Qed.
 End S.
